@@ -19,8 +19,8 @@ PROP = dict(
                "filter\" is read as: first level equals \"$share\" up to case folding (the broker's constant is \"$SHARE\" and "
                "TopicsIndex.Subscribe indexes every case variant as a shared subscription); C30_filter_literal covers the "
                "literal reading outside the other case variants.",
-    engines=[dict(hx="valid"), dict(hx="subinvalid"), dict(hx="subinvalid_restart", timeout=900)],
-    theorems=["C30_filter", "C30_topic", "C30_shared", "C30_filter_literal", "C30_levels_ok_meaning", "C30_split_join", "C30_suback"],
+    engines=[dict(hx="valid"), dict(hx="pubvalid"), dict(hx="subinvalid"), dict(hx="subinvalid_restart", timeout=900)],
+    theorems=["C30_filter", "C30_topic", "C30_shared", "C30_filter_literal", "C30_levels_ok_meaning", "C30_split_join", "C30_suback", "C30_publish_never_invalid", "C30_publish_monitor"],
     model_files="coq/Topics/Valid.v",
     rule="three observations per string (IsValidFilter(s,false), IsValidFilter(s,true), IsSharedFilter(s)); strings: every "
          "string of length <= 6 (thorough 8) over {/,+,#,$,a} (exhaustive), every concatenation of <= 5 (thorough 6) tokens "
@@ -30,6 +30,14 @@ PROP = dict(
          "persistent MQTT 3.1 / 3.1.1 / 5 sessions send SUBSCRIBE packets mixing accepted with refused filters (invalid, "
          "not authorised) on each of the four storage back ends; shutdown; restart on the same store: a refused filter "
          "is neither in the index nor in the client state nor in the store nor anywhere after the restart",
+    rule_publish="pubvalid: the real broker (in-memory connections) receives PUBLISH packets whose topic name arrives "
+         "plain, with a fresh topic alias, with an already bound alias + non-empty name (re-bind), alias-only (also after a "
+         "refused re-bind and on never-bound aliases), QoS 0/1/2, retain on/off, MQTT 3.1/3.1.1/5; names: 13 hand-picked invalid "
+         "names and the strings of length <= 3 over {/,+,#,$,a} x 3 routes (scripted: bind alias 1 to a valid name, send the "
+         "name by the route, probe alias 1, plain valid publish, probe alias 2) and random histories of 16 (thorough 24) "
+         "publishes; observed per message: OnPublished / OnRetainMessage topic names, what a subscriber to #, $SYS/#, $sys/# "
+         "received, the acknowledgement, connection closure; at the end the retained store.  Verdict by the Coq monitor: an "
+         "invalid name is never routed, retained, delivered or bound to an alias; a valid one is routed once under its own name",
     exhaustive=False,
     modelled="topics.go isolateParticle, IsSharedFilter, IsValidFilter (entire functions)",
     assumptions=["Go strings are byte sequences; '/', '+', '#', '$' are single bytes, so byte-level search equals rune-level search",
